@@ -95,11 +95,11 @@ InvAlgebra ==
         /\ RestrictTo(G, G, b) = (IF b THEN G ELSE {})
         /\ RestrictTo(All \ F, G, b) = C \ RestrictTo(F, G, b)
         /\ Satisfiable(NS, tt[m + 1], b) = (C # {})
-        /\ \A k \in Ids :
-              LET H == TSet(NS, tt[k + 1]) IN
-              /\ RestrictTo(F \cap H, G, b) = RestrictTo(F, G, b) \cap RestrictTo(H, G, b)
-              /\ RestrictTo(F \cup H, G, b) = RestrictTo(F, G, b) \cup RestrictTo(H, G, b)
-              /\ AgreeOn(NS, tt[n + 1], tt[k + 1], tt[m + 1], b) = (RestrictTo(F, G, b) = RestrictTo(H, G, b))
+        /\ LET k == (n + m) % Len(tree)          \* a third function (pairs suffice to keep the model small)
+               H == TSet(NS, tt[k + 1]) IN
+           /\ RestrictTo(F \cap H, G, b) = RestrictTo(F, G, b) \cap RestrictTo(H, G, b)
+           /\ RestrictTo(F \cup H, G, b) = RestrictTo(F, G, b) \cup RestrictTo(H, G, b)
+           /\ AgreeOn(NS, tt[n + 1], tt[k + 1], tt[m + 1], b) = (RestrictTo(F, G, b) = RestrictTo(H, G, b))
 
 \* ---------------------------------------------------- reference translations
 RECURSIVE PF(_, _)
